@@ -24,6 +24,7 @@ import (
 	"net/http/httptest"
 	"net/url"
 	"os"
+	"strconv"
 	"strings"
 	"time"
 
@@ -960,6 +961,52 @@ func newVerifier(st *store, issuer string, vs vset, vb vbuild) *op.JWTProfileVer
 	return v
 }
 
+// extremeTimes: NumericDates far away from now, judged by exact second arithmetic on the value
+// as written: what a "this must be milliseconds" / 32-bit / float / duration-overflow reading
+// would turn into something near now, or the reverse. All are exact in float64 (|x| <= 2^53).
+// -62135596800 (Go's zero time) is left out for iat: IsZero() makes it "missing".
+func extremeTimes(nowS int64, exp bool) []int64 {
+	v := []int64{nowS * 1000, nowS*1000 + 999, (nowS - 7200) * 1000, (nowS + 600) * 1000, nowS / 1000, 100000000000, 99999999999, 100000000001, 1000000000000,
+		1 << 53, 1<<53 - 1, 253402300799, 253402300800, 1 << 31, 1<<31 - 1, 1 << 32, 1<<32 + nowS%1000, 9223372036, 9223372037, nowS + 9223372036, nowS + 9223372037,
+		1, -1, -nowS, -(1 << 53), -62135596799, -62135596801, -9223372037, nowS - 9223372037, 4102444800, 32503680000}
+	if exp {
+		v = append(v, -62135596800)
+	}
+	return v
+}
+
+// spellNum writes the integer n as a JSON number in another spelling with the same integer part.
+func spellNum(r drv.Rand, n int64) json.RawMessage {
+	plain := fmt.Sprintf("%d", n)
+	var s string
+	switch r.IntN(7) {
+	case 0:
+		s = plain + ".0"
+	case 1:
+		s = plain + drv.Pick(r, []string{".5", ".25", ".999", ".000001"})
+		if n < 0 { // a fraction moves a negative value away from n when truncated towards zero
+			s = plain + ".0"
+		}
+	case 2:
+		s = strconv.FormatFloat(float64(n), 'e', -1, 64)
+	case 3:
+		s = strings.Replace(strconv.FormatFloat(float64(n), 'e', -1, 64), "e+", "E", 1)
+	case 4:
+		s = plain + "e0"
+	case 5:
+		s = plain + ".000000000000000000001"
+		if n < 0 {
+			s = plain + ".0"
+		}
+	default:
+		s = plain + "E+0"
+	}
+	if f, err := strconv.ParseFloat(s, 64); err != nil || float64(int64(f)) != float64(n) || int64(f) != n || !json.Valid([]byte(s)) {
+		s = plain
+	}
+	return json.RawMessage(s)
+}
+
 // omitEmpty: an empty claim is left out of the JSON (otherwise it is sent empty half of the time)
 func claimsJSON(c claimsD, audString bool, r drv.Rand, omitEmpty bool) []byte {
 	m := map[string]any{}
@@ -977,9 +1024,18 @@ func claimsJSON(c claimsD, audString bool, r drv.Rand, omitEmpty bool) []byte {
 	}
 	if c.iat != 0 {
 		m["iat"] = c.iat
+		if r.Chance(1, 5) {
+			m["iat"] = spellNum(r, c.iat)
+		}
 	}
 	if c.exp != 0 {
 		m["exp"] = c.exp
+		if r.Chance(1, 5) {
+			m["exp"] = spellNum(r, c.exp)
+		}
+	}
+	if r.Chance(1, 8) { // nbf is not a claim of the JWT profile: whatever it says changes nothing
+		m["nbf"] = spellNum(r, drv.Pick(r, extremeTimes(time.Now().Unix(), true)))
 	}
 	if r.Chance(1, 4) {
 		m["jti"] = fmt.Sprintf("%x", r.Bytes(6))
@@ -1079,7 +1135,13 @@ func assertionCase(r drv.Rand, w *emit.Writer, wd world, bump func(string)) {
 	if absentPair {
 		nm = 1
 	}
-	crossTenant := router && cycle == "" && !near && otherTenant != issuer && r.Chance(1, 3)
+	// extreme stratum: ONE time claim far away from now, everything else valid - both the accept
+	// side (an exp thousands of years ahead) and the reject side (an iat in the far future / past)
+	extreme := cycle == "" && !subMatrix && !near && !absentPair && r.Chance(1, 10)
+	if extreme {
+		nm = 1
+	}
+	crossTenant := router && cycle == "" && !extreme && !near && otherTenant != issuer && r.Chance(1, 3)
 	if crossTenant { // addressed to another tenant (request issuer) of the same provider, otherwise valid
 		nm = 1
 	}
@@ -1093,6 +1155,9 @@ func assertionCase(r drv.Rand, w *emit.Writer, wd world, bump func(string)) {
 		}
 		if absentPair {
 			m = "absent"
+		}
+		if extreme {
+			m = drv.Pick(r, []string{"iat", "exp"})
 		}
 		muts = append(muts, m)
 		switch m {
@@ -1155,11 +1220,25 @@ func assertionCase(r drv.Rand, w *emit.Writer, wd world, bump func(string)) {
 			if r.Chance(1, 8) {
 				c.iat = 0
 			}
+			if extreme || r.Chance(1, 4) {
+				c.iat = drv.Pick(r, extremeTimes(nowS, false))
+				if r.Bool() { // now, written in milli- / microseconds: centuries ahead as seconds
+					c.iat = drv.Pick(r, []int64{nowS * 1000, nowS*1000 + 999, (nowS - 5) * 1000, (nowS - 1) * 1000000, nowS * 1000000})
+				}
+				tags = append(tags, "extreme_time=iat")
+			}
 		case "exp":
 			d := drv.Pick(r, []int64{offS - 1, offS, offS + 1, offS + 2, offS + 3, 0, -1, -3600, 1, 2})
 			c.exp = nowS + d
 			if r.Chance(1, 8) {
 				c.exp = 0
+			}
+			if extreme || r.Chance(1, 4) {
+				c.exp = drv.Pick(r, extremeTimes(nowS, true))
+				if r.Chance(1, 3) { // a past instant written in milliseconds is far ahead as seconds; a future one in 1/1000 s units is long gone
+					c.exp = drv.Pick(r, []int64{(nowS - 7200) * 1000, (nowS - 1) * 1000, (nowS + 600) / 1000, (nowS - 86400) * 1000000})
+				}
+				tags = append(tags, "extreme_time=exp")
 			}
 		case "kid":
 			plan.kid = drv.Pick(r, []string{"a1", "b1", "a2", "g1", "", "nope", "null", "undefined", "0", "false", "[]"})
@@ -1905,6 +1984,24 @@ func requestCase(r drv.Rand, w *emit.Writer, wd world) {
 			inner.raw[m] = lit
 		}
 	}
+	// time members (no claim of a request object is a time: they change nothing) and max_age at the
+	// far ends of the number range / in other number spellings
+	oddTimes := r.Chance(1, 6)
+	if oddTimes {
+		if inner.raw == nil {
+			inner.raw = map[string]any{}
+		}
+		for _, k := range []string{"exp", "iat", "nbf"} {
+			if r.Bool() {
+				inner.raw[k] = spellNum(r, drv.Pick(r, extremeTimes(time.Now().Unix(), true)))
+			}
+		}
+		if r.Bool() && inner.raw["max_age"] == nil {
+			if _, isNull := inner.raw["max_age"]; !isNull {
+				inner.maxAge = uintp(uint(drv.Pick(r, []uint64{4294967295, 4294967296, 100000000000, 1000000000000, 1 << 53, uint64(time.Now().Unix()) * 1000})))
+			}
+		}
+	}
 	iss := named
 	aud := []string{issuer}
 	audString := r.Chance(1, 4)
@@ -2027,7 +2124,7 @@ func requestCase(r drv.Rand, w *emit.Writer, wd world) {
 	if len(muts) == 0 {
 		muts = []string{"none"}
 	}
-	tags := []string{"kind=request", fmt.Sprintf("long_client=%v", long), fmt.Sprintf("via_authorize=%v", via), fmt.Sprintf("supported=%v", supported), "keytype=" + plan.key.kind, fmt.Sprintf("nmut=%d", nm), fmt.Sprintf("zero_members=%v", zero)}
+	tags := []string{"kind=request", fmt.Sprintf("long_client=%v", long), fmt.Sprintf("via_authorize=%v", via), fmt.Sprintf("supported=%v", supported), "keytype=" + plan.key.kind, fmt.Sprintf("nmut=%d", nm), fmt.Sprintf("zero_members=%v", zero), fmt.Sprintf("odd_times=%v", oddTimes)}
 	for _, z := range zeroed {
 		tags = append(tags, "zero="+strings.ReplaceAll(z, ":null=", "_null_"))
 	}
